@@ -276,6 +276,7 @@ Proof.
     apply InvLt_remove_ref. apply (InvLt_ext c s); [reflexivity | exact H].
   - apply (InvLt_ext c s); [apply (cf_cb_return lf); reflexivity | exact H].
   - destruct (Nat.eqb c0 0); [exact H | now apply InvLt_cancel_root].
+  - destruct (watch_step_spec s c0) as [->|[x [y [_ [-> _]]]]]; [exact H|]. apply (InvLt_ext c s); [reflexivity | exact H].
 Qed.
 
 Lemma init_InvLt c k : InvLt c (init k).
@@ -390,7 +391,7 @@ Qed.
 
 Lemma step_InvLc c s e : InvCh s -> InvLt c s -> InvLc s -> InvLc (step repaired s e).
 Proof.
-  intros HCh HL H. destruct e as [c0|k|r|a|g|a|g en|g v hr er|g|k|c0|c0|c0|c0 res|c0]; cbn [step].
+  intros HCh HL H. destruct e as [c0|k|r|a|g|a|g en|g v hr er|g|k|c0|c0|c0|c0 res|c0|c0]; cbn [step].
   - unfold set_context. destruct (Nat.eqb (kctx s) c0); [exact H|]. cbn [fst]. apply (InvLc_start_resolve c). apply (InvLt_ext c s); [reflexivity | exact HL].
   - now apply (InvLc_add_ref c).
   - destruct (rkind (nth r (refs s) ref0)); try exact H;
@@ -430,6 +431,7 @@ Proof.
     apply (InvLc_frame s); [exact K1 | unfold nrefs; now rewrite E1 | apply nf_cancel_root | | exact H].
     intros i. apply (cancel_root_ind (fun s0 => gdone (getg s0 i) = false -> gdone (getg s i) = false)); [|auto].
     intros s0 og IH Hd. apply IH. destruct (cancel_g_gs s0 og) as [_ GF]. destruct (GF i) as [_ [_ [Ep _]]]. unfold gdone in *. now rewrite <- Ep.
+  - destruct (watch_step_spec s c0) as [->|[x [y [_ [-> _]]]]]; [exact H|]. apply (InvLc_frame s); try reflexivity; auto.
 Qed.
 
 Theorem run_InvLc c k es : Forall (wfc_ev c) es -> InvLc (run repaired (init k) es).
